@@ -63,6 +63,10 @@ class World:
     def extra_events(self):
         return []
 
+    def frozen(self):
+        """True while a long linear phase runs in which no scheduling deviation is to be enumerated."""
+        return False
+
     def timer_enabled(self):
         """Scenarios may keep the clock still during phases that are not under test (serial handshake)."""
         return True
@@ -111,7 +115,10 @@ def execute(make_world, chooser, trace=False):
             progress = [m for m in menu if not (m[0].startswith("cancel:") or m[0].startswith("fault:"))]
             if not progress:
                 break
-            k = chooser.choose(len(menu), menu[0][0] if len(menu) == 1 else "|".join(m[0] for m in menu))
+            costs = None
+            if w.frozen():
+                costs = [0] + [99] * (len(menu) - 1)       # linear tail: no deviations are enumerated here
+            k = chooser.choose(len(menu), menu[0][0] if len(menu) == 1 else "|".join(m[0] for m in menu), costs)
             label, fn = menu[k]
             w.trace.append(label)
             steps += 1
